@@ -331,7 +331,7 @@ fn build<'a>(t: &Table, repr: Repr) -> P<'a> {
 }
 
 /// the static catalogue: plain (unboxed) operator tuples with their descriptions
-fn static_catalogue<'a>() -> Vec<(Table, P<'a>)> {
+fn static_catalogue<'a>() -> Vec<(Table, P<'a>, P<'a>)> {
     macro_rules! st {
         ($e:expr) => {{
             let s = $e.state();
@@ -382,28 +382,25 @@ fn static_catalogue<'a>() -> Vec<(Table, P<'a>)> {
     let dw = |sym: char, fix: Fix, power: u16| OpD { sym, fix, power, wide: true };
     let tb = |ops: Vec<OpD>| Table { ops, parens: false };
     let a = || atom(false, None);
+    // every table twice: the value itself, and a clone of a clone of it with the original dropped (the operators' and the
+    // Pratt parser's own Clone impls: a boxed clone only bumps a reference count)
+    fn ent<'a, Q: Parser<'a, &'a str, Ex, E<'a>> + Clone + 'a>(t: Table, p: Q) -> (Table, P<'a>, P<'a>) {
+        let c = p.clone().clone();
+        (t, p.boxed(), c.boxed())
+    }
     vec![
-        (tb(vec![d('+', Fix::Left, 1)]), a().pratt((inf!(left(1), '+'),)).boxed()),
-        (tb(vec![d('+', Fix::Left, 1), d('*', Fix::Left, 2)]), a().pratt((inf!(left(1), '+'), inf!(left(2), '*'))).boxed()),
-        (tb(vec![d('^', Fix::Right, 1), d('+', Fix::Left, 0), d('-', Fix::Prefix, 2)]), a().pratt((inf!(right(1), '^'), inf!(left(0), '+'), pre!(2, '-'))).boxed()),
-        (tb(vec![d('-', Fix::Prefix, 1), d('-', Fix::Left, 1), d('!', Fix::Postfix, 1)]), a().pratt((pre!(1, '-'), inf!(left(1), '-'), post!(1, '!'))).boxed()),
-        (tb(vec![d('!', Fix::Postfix, 0), d('+', Fix::Left, 1), d('~', Fix::Prefix, 3), d('*', Fix::Right, 1)]), a().pratt((post!(0, '!'), inf!(left(1), '+'), pre!(3, '~'), inf!(right(1), '*'))).boxed()),
-        (tb(vec![d('+', Fix::Left, 0), d('-', Fix::Left, 0), d('*', Fix::Left, 1), d('^', Fix::Right, 2), d('-', Fix::Prefix, 1)]), a().pratt((inf!(left(0), '+'), inf!(left(0), '-'), inf!(left(1), '*'), inf!(right(2), '^'), pre!(1, '-'))).boxed()),
-        (
-            tb(vec![d('+', Fix::Left, 0), d('-', Fix::Left, 0), d('*', Fix::Left, 1), d('^', Fix::Right, 2), d('-', Fix::Prefix, 3), d('!', Fix::Postfix, 2)]),
-            a().pratt((inf!(left(0), '+'), inf!(left(0), '-'), inf!(left(1), '*'), inf!(right(2), '^'), pre!(3, '-'), post!(2, '!'))).boxed(),
-        ),
-        (tb(vec![d('!', Fix::Postfix, 1), d('+', Fix::Left, 1)]), a().pratt((post!(1, '!'), inf!(left(1), '+'))).boxed()),
+        ent(tb(vec![d('+', Fix::Left, 1)]), a().pratt((inf!(left(1), '+'),))),
+        ent(tb(vec![d('+', Fix::Left, 1), d('*', Fix::Left, 2)]), a().pratt((inf!(left(1), '+'), inf!(left(2), '*')))),
+        ent(tb(vec![d('^', Fix::Right, 1), d('+', Fix::Left, 0), d('-', Fix::Prefix, 2)]), a().pratt((inf!(right(1), '^'), inf!(left(0), '+'), pre!(2, '-')))),
+        ent(tb(vec![d('-', Fix::Prefix, 1), d('-', Fix::Left, 1), d('!', Fix::Postfix, 1)]), a().pratt((pre!(1, '-'), inf!(left(1), '-'), post!(1, '!')))),
+        ent(tb(vec![d('!', Fix::Postfix, 0), d('+', Fix::Left, 1), d('~', Fix::Prefix, 3), d('*', Fix::Right, 1)]), a().pratt((post!(0, '!'), inf!(left(1), '+'), pre!(3, '~'), inf!(right(1), '*')))),
+        ent(tb(vec![d('+', Fix::Left, 0), d('-', Fix::Left, 0), d('*', Fix::Left, 1), d('^', Fix::Right, 2), d('-', Fix::Prefix, 1)]), a().pratt((inf!(left(0), '+'), inf!(left(0), '-'), inf!(left(1), '*'), inf!(right(2), '^'), pre!(1, '-')))),
+        ent(tb(vec![d('+', Fix::Left, 0), d('-', Fix::Left, 0), d('*', Fix::Left, 1), d('^', Fix::Right, 2), d('-', Fix::Prefix, 3), d('!', Fix::Postfix, 2)]), a().pratt((inf!(left(0), '+'), inf!(left(0), '-'), inf!(left(1), '*'), inf!(right(2), '^'), pre!(3, '-'), post!(2, '!')))),
+        ent(tb(vec![d('!', Fix::Postfix, 1), d('+', Fix::Left, 1)]), a().pratt((post!(1, '!'), inf!(left(1), '+')))),
         // multi-token operators declared before their one-token prefixes
-        (
-            tb(vec![dw('-', Fix::Prefix, 2), d('-', Fix::Prefix, 1), dw('*', Fix::Right, 2), d('-', Fix::Left, 1), d('*', Fix::Left, 2)]),
-            a().pratt((pre!(@ 2, oppw!('-', "--")), pre!(1, '-'), inf!(@ right(2), oppw!('*', "**")), inf!(left(1), '-'), inf!(left(2), '*'))).boxed(),
-        ),
+        ent(tb(vec![dw('-', Fix::Prefix, 2), d('-', Fix::Prefix, 1), dw('*', Fix::Right, 2), d('-', Fix::Left, 1), d('*', Fix::Left, 2)]), a().pratt((pre!(@ 2, oppw!('-', "--")), pre!(1, '-'), inf!(@ right(2), oppw!('*', "**")), inf!(left(1), '-'), inf!(left(2), '*')))),
         // powers from the upper half of the u16 range (2 * power + 1 needs 17 bits)
-        (
-            tb(vec![d('-', Fix::Prefix, 40000), d('+', Fix::Left, 10000), d('*', Fix::Left, 20000), d('!', Fix::Postfix, 50000), d('^', Fix::Right, 65535), d('~', Fix::Prefix, 32768)]),
-            a().pratt((pre!(40000, '-'), inf!(left(10000), '+'), inf!(left(20000), '*'), post!(50000, '!'), inf!(right(65535), '^'), pre!(32768, '~'))).boxed(),
-        ),
+        ent(tb(vec![d('-', Fix::Prefix, 40000), d('+', Fix::Left, 10000), d('*', Fix::Left, 20000), d('!', Fix::Postfix, 50000), d('^', Fix::Right, 65535), d('~', Fix::Prefix, 32768)]), a().pratt((pre!(40000, '-'), inf!(left(10000), '+'), inf!(left(20000), '*'), post!(50000, '!'), inf!(right(65535), '^'), pre!(32768, '~')))),
     ]
 }
 
@@ -502,7 +499,10 @@ fn check_with(t: &Table, toks: &[char], sub: &str, statics: Option<usize>, l: &m
         let ps = &cat[i].1;
         others.push(("tuple of plain operators", run_impl(ps, &s, false)));
         others.push(("tuple of plain operators in check mode", run_impl(ps, &s, true)));
-        l.evals += 2;
+        let pc = &cat[i].2;
+        others.push(("clone of a clone of the plain-operator table", run_impl(pc, &s, false)));
+        others.push(("clone of a clone of the plain-operator table in check mode", run_impl(pc, &s, true)));
+        l.evals += 4;
         l.bump("static_catalogue_runs");
     }
     for (name, g) in &others {
@@ -553,7 +553,7 @@ fn check_with(t: &Table, toks: &[char], sub: &str, statics: Option<usize>, l: &m
 
 pub fn check_case(case: &Case, l: &mut Local) -> Result<(), Fail> {
     let t: Table = serde_json::from_value(case.extra.get("table").cloned().unwrap_or(json!(null))).map_err(|e| Fail::new("C09/replay", format!("bad table: {}", e)))?;
-    let idx = if case.sub == "static" { static_catalogue::<'static>().iter().position(|(ct, _)| *ct == t) } else { None };
+    let idx = if case.sub == "static" { static_catalogue::<'static>().iter().position(|(ct, _, _)| *ct == t) } else { None };
     check_with(&t, &case.toks(), &case.sub, idx, l).map_err(|(_, f)| f)
 }
 
@@ -732,7 +732,7 @@ pub fn run(tier: Tier, seed: u64) -> i32 {
 /// C07's share of this module: the spans (and slices) seen by Pratt fold callbacks. Runs a reduced table tier
 /// and returns the first failure whose signature concerns a callback span.
 pub fn callback_span_tier(ctx: &Ctx, ntab: u64, maxlen: usize, rewrap: &(dyn Fn(Case, Fail) -> (Case, Fail) + Sync)) {
-    let mut tables: Vec<Table> = static_catalogue::<'static>().into_iter().map(|(t, _)| t).collect();
+    let mut tables: Vec<Table> = static_catalogue::<'static>().into_iter().map(|(t, _, _)| t).collect();
     {
         let mut runner = tape_runner(ctx.seed, 97, 0);
         use proptest::strategy::{Strategy, ValueTree};
